@@ -183,6 +183,11 @@ def gen():
     thread_prog("f7_share_world", "F7 share a world between threads", lambda c: "pub fn f(world: &World<Registry!(A, %s)>) { std::thread::scope(|s| { s.spawn(|| touch(world.len())); }); }" % c, "&World used from a scoped thread")
     add("f7_share_world_ny", "F7 share a world between threads", "pub fn f(world: &World<Registry!(A, NY)>) { std::thread::scope(|s| { s.spawn(|| touch(world.len())); }); }", "reject", "&World with a Send-but-not-Sync component shared")
     add("f7_move_world_ny_twin", "F7 move a world to a thread twin", "pub fn f(world: World<Registry!(A, NY)>) { std::thread::spawn(move || drop(world)); }", "accept", "World with Send components moved")
+    add("f7_share_world_res_ny", "F7 share a world between threads", "pub struct RNY(pub Cell<u32>); pub fn f(world: &World<Reg, Resources!(R1, RNY)>) { std::thread::scope(|s| { s.spawn(|| touch(world.len())); }); }", "reject", "&World with a Send-but-not-Sync resource shared")
+    add("f7_share_world_res_ns", "F7 share a world between threads", "pub fn f(world: &World<Reg, Resources!(R1, RNS)>) { std::thread::scope(|s| { s.spawn(|| touch(world.len())); }); }", "reject", "&World with an Rc resource shared")
+    add("f7_share_world_res_twin", "F7 share a world between threads twin", "pub fn f(world: &World<Reg, Resources!(R1, ROK)>) { std::thread::scope(|s| { s.spawn(|| touch(world.len())); }); }", "accept", "&World with an Arc resource shared")
+    add("f7_move_world_res_ny_twin", "F7 move a world (resource payload) twin", "pub struct RNY(pub Cell<u32>); pub fn f(world: World<Reg, Resources!(R1, RNY)>) { std::thread::spawn(move || drop(world)); }", "accept", "World with a Send resource moved")
+    add("f7_get_res_ny_shared", "F7 share a world between threads", "pub struct RNY(pub Cell<u32>); pub fn f(world: &World<Reg, Resources!(RNY)>) { std::thread::scope(|s| { s.spawn(|| world.get::<RNY, _>().0.set(1)); s.spawn(|| world.get::<RNY, _>().0.set(2)); }); }", "reject", "a Cell resource mutated from two threads through &World")
     thread_prog("f7_move_world_res", "F7 move a world (resource payload)", lambda c: "pub fn f(world: World<Reg, Resources!(R1, %s)>) { std::thread::spawn(move || drop(world)); }" % ("RNS" if c == "NS" else "ROK"), "World with a resource moved into a thread")
     for k in "rwop":
         def mk(c, k=k):
